@@ -5,8 +5,8 @@ use educe::Educe;
 use core::cmp::Ordering;
 #[derive(Educe)]
 #[educe(Hash)]
-pub enum T { A(), Some(A<0>, A<1>) }
-pub fn values() -> Vec<T> { vec![T::A(), T::Some(A(0), A(0)), T::Some(A(0), A(1)), T::Some(A(0), A(7)), T::Some(A(1), A(0)), T::Some(A(1), A(1)), T::Some(A(1), A(7)), T::Some(A(7), A(0)), T::Some(A(7), A(1)), T::Some(A(7), A(7))] }
-pub fn show(x: &T) -> String { #[allow(unused_variables)] match x { T::A() => format!("A()"), T::Some(p0, p1) => format!("Some({},{})", sv(p0), sv(p1)) } }
-pub fn o_hash(x: &T) -> Vec<String> { let mut e = Rec::default(); match x { T::A() => { ::core::hash::Hash::hash(&0usize, &mut e); }, T::Some(p0, p1) => { ::core::hash::Hash::hash(&1usize, &mut e); ::core::hash::Hash::hash(p0, &mut e); ::core::hash::Hash::hash(p1, &mut e); } } e.0 }
+pub struct T;
+pub fn values() -> Vec<T> { vec![T] }
+pub fn show(x: &T) -> String { #[allow(unused_variables)] match x { T => format!("T()") } }
+pub fn o_hash(x: &T) -> Vec<String> { let mut e = Rec::default(); match x { T => {  } } e.0 }
 pub fn run(out: &mut Out) { let vs = values(); for a in &vs { let mut g = Rec::default(); ::core::hash::Hash::hash(a, &mut g); let e = o_hash(a); out.check(g.0 == e, "hash_19", "hash", || format!("hash({}) fed {:?} expected {:?}", show(a), g.0, e)); } }
